@@ -456,7 +456,7 @@ mut('m34_swap_self_valueerror', 'C12',
             raise MosMergeError(""",
      """        if story1 is story2:
             raise ValueError(""", None))
-mut('m35_offsets_none_typeerror', 'C12',
+mut('m35_offsets_none_typeerror', 'C15 C16',
     (ME, """            if t is not None and duration is not None:
                 t += duration
             else:
